@@ -166,7 +166,12 @@ def arith_entries():
                 def spec(a, b):
                     a, b = i_(a), i_(b)
                     q, r = a / b, a % b
-                    return [(b != 0, ok(out_v(t, q if which == "div" else r))),
+                    if which == "div":
+                        # the quotient is characterised by q*b <= a < q*b + b (no division term:
+                        # the defining property matches the constraints the CASM imposes)
+                        return [(b != 0, ("pred", lambda out: _div_pred(out, a, b))),
+                                (b == 0, panic(short("Division by 0")))]
+                    return [(b != 0, ok(out_v(t, r))),
                             (b == 0, panic(short("Division by 0")))]
                 return spec
         else:
@@ -233,7 +238,7 @@ def arith_entries():
         if not signed:
             def drs(a, b, t=t):
                 a, b = i_(a), i_(b)
-                return [(True, ok(vtuple(out_v(t, a / b), out_v(t, a % b))))]
+                return [(True, ("pred", lambda out: _divrem_pred(out, a, b)))]
             E.append(Entry(f"div_rem_{t}", [("a", t), ("b", f"NonZero<{t}>")], f"({t}, {t})",
                            "DivRem::div_rem(a, b)", drs, tags=nl))
         else:
@@ -270,6 +275,16 @@ def arith_entries():
             E.append(Entry(f"bitnot_{t}", [("a", t)], t, "~a",
                            (lambda t, hi: lambda a: [(True, ok(out_v(t, hi - i_(a))))])(t, hi)))
     return E
+
+
+def _div_pred(out, a, b):
+    q = i_(out)
+    return z3.And(q >= 0, q * b <= a, a < q * b + b)
+
+
+def _divrem_pred(out, a, b):
+    q, r = i_(out[1][0]), i_(out[1][1])
+    return z3.And(q >= 0, r >= 0, r < b, q * b + r == a)
 
 
 def _sqrt_pred(out, a):
